@@ -52,6 +52,7 @@ func markFault(t *rapid.T, sp *gkit.Spec) {
 	}
 	n := lambdas[rapid.IntRange(0, len(lambdas)-1).Draw(t, "faultNode")]
 	n.Fault = []string{"err", "streamerr"}[rapid.IntRange(0, 1).Draw(t, "faultKind")]
+	n.FaultEOF = rapid.IntRange(0, 2).Draw(t, "faultEOF") == 0 // the failure's chain also ends in io.EOF: a failure all the same
 }
 
 func genC04(t *rapid.T) CaseC04 {
